@@ -6,7 +6,9 @@
 
    [millis()] is the argument [now].  C [int] / [unsigned long] values are [Z]; the unsigned
    subtraction [now - last_step] is exact because tick times are non-decreasing in every
-   statement that depends on it.  String = list of bytes (ASCII texts: bytes = code points).
+   statement that depends on it - no longer taken for granted: Device/DLCDAnimW.v computes the
+   limiter modulo 2^W and C18_width_model_agrees_device proves that it is this model for every
+   history below 2^W (C18_rollover_trace_device_partial: and beyond, under a guard).  String = list of bytes (ASCII texts: bytes = code points).
    The LCD is cursor addressed: [setCursor(col,row)] followed by [print(s)] writes the cells
    (row, col), (row, col+1), ...; each is the event [DW row col ch].  [DDelay] stands for a call
    of delay()/delayMicroseconds(): the templates contain none. *)
